@@ -749,3 +749,495 @@ Theorem gbp_no_panic S root buf p : gbp fx S root buf p <> GPanicA.
 Proof. unfold gbp. destruct p; [discriminate | apply gbp_loop_np]. Qed.
 
 End NoPanic.
+
+(* ---- fuel: getByPath with ANY extra fuel in every loop is the same function *)
+
+Lemma venc_S f v : venc (S f) v = if v <? 128 then [v] else (v mod 128 + 128) :: venc f (v / 128).
+Proof. reflexivity. Qed.
+
+(* a decoded varint is at least as long as the minimal encoding of its value *)
+Lemma vdec_min_len k : forall shift acc n l v m,
+  vdec k shift acc n l = (v, m) -> 0 <= m -> bytes_ok l -> 0 <= shift ->
+  exists w, v = acc + w * 2 ^ shift /\ 0 <= w /\ Z.of_nat (length (venc (S k) w)) <= m - n.
+Proof.
+  induction k as [|k IH]; intros shift acc n l v m H Hm Hb Hs; destruct l as [|y r]; cbn [vdec] in H;
+    try (inversion H; subst; lia); inversion Hb as [|? ? Hy Hr]; subst; unfold byte_ok in Hy.
+  - destruct (Z.ltb_spec y 2); inversion H; subst; [|lia].
+    exists y. split; [reflexivity|]. split; [lia|]. rewrite venc_S. destruct (Z.ltb_spec y 128); cbn [length]; lia.
+  - destruct (Z.ltb_spec y 128) as [Hlt|Hge].
+    + inversion H; subst. exists y. split; [reflexivity|]. split; [lia|].
+      rewrite venc_S. destruct (Z.ltb_spec y 128); [cbn [length]; lia | lia].
+    + destruct (IH _ _ _ _ _ _ H Hm Hr ltac:(lia)) as (w' & Hv & Hw & Hlen).
+      exists ((y - 128) + 128 * w'). split; [|split; [lia|]].
+      * rewrite Hv, pow2_add by lia. change (2 ^ 7) with 128. ring.
+      * rewrite venc_S. destruct (Z.ltb_spec (y - 128 + 128 * w') 128); [cbn [length]; lia|].
+        replace ((y - 128 + 128 * w') / 128) with w' by (Z.div_mod_to_equations; lia).
+        cbn [length]. lia.
+Qed.
+
+Lemma varint_dec_min_len l v m : bytes_ok l -> varint_dec l = (v, m) -> 0 <= m ->
+  0 <= v /\ plen (varint_enc v) <= m.
+Proof.
+  intros Hb H Hm. destruct (vdec_min_len 9 0 0 0 l v m H Hm Hb ltac:(lia)) as (w & Hv & Hw & Hlen).
+  rewrite Z.pow_0_r in Hv. assert (v = w) by lia. subst w. split; [assumption|].
+  unfold plen, varint_enc. lia.
+Qed.
+
+Lemma venc_len_same : forall k a b, 0 <= a -> 0 <= b -> a / 8 = b / 8 -> length (venc k a) = length (venc k b).
+Proof.
+  induction k as [|k IH]; intros a b Ha Hb Hab; [reflexivity|]. rewrite !venc_S.
+  assert (Hd : a / 128 = b / 128).
+  { change 128 with (8 * 16). rewrite <- !Z.div_div by lia. rewrite Hab. reflexivity. }
+  destruct (Z.ltb_spec a 128); destruct (Z.ltb_spec b 128); try reflexivity.
+  - exfalso. Z.div_mod_to_equations. lia.
+  - exfalso. Z.div_mod_to_equations. lia.
+  - cbn [length]. f_equal. apply IH; [apply Z.div_pos; lia | apply Z.div_pos; lia | rewrite Hd; reflexivity].
+Qed.
+
+Lemma venc_len_mono : forall k a b, 0 <= a <= b -> (length (venc k a) <= length (venc k b))%nat.
+Proof.
+  induction k as [|k IH]; intros a b Hab; [cbn; lia|]. rewrite !venc_S.
+  destruct (Z.ltb_spec a 128); destruct (Z.ltb_spec b 128); cbn [length]; try lia.
+  apply le_n_S. apply IH. split; [apply Z.div_pos; lia | apply Z.div_le_mono; lia].
+Qed.
+
+(* the step back of repair 702 (one minimal tag of the list's field) never leaves the buffer when the cursor
+   stands right behind a tag of that field *)
+Lemma tag_len_le buf rd_t v n num ewt :
+  bytes_ok buf -> 0 <= rd_t -> cvar buf rd_t = Some (v, n) -> v / 8 = num -> 1 <= num -> -1 <= ewt <= 7 ->
+  plen (varint_enc (num * 8 + ewt)) <= n.
+Proof.
+  intros Hb Hrd Hc Hv Hnum Hw. unfold cvar in Hc.
+  destruct (varint_dec (at_ buf rd_t)) as [v0 n0] eqn:E. destruct (Z.ltb_spec n0 0); [discriminate|].
+  inversion Hc; subst v0 n0.
+  destruct (varint_dec_min_len _ _ _ (bytes_ok_skipn' _ _ Hb) E ltac:(lia)) as [Hv0 Hlen].
+  unfold plen, varint_enc in *.
+  destruct (Z.eq_dec ewt (-1)) as [->|Hne].
+  - pose proof (venc_len_mono 10 (num * 8 + -1) v ltac:(Z.div_mod_to_equations; lia)). lia.
+  - rewrite (venc_len_same 10 (num * 8 + ewt) v); [lia | lia | lia |]. Z.div_mod_to_equations. lia.
+Qed.
+
+Lemma elem_wt_range t : -1 <= elem_wt t <= 7.
+Proof.
+  unfold elem_wt, wt_of_kind.
+  repeat match goal with |- context [if ?c then _ else _] => destruct c end; lia.
+Qed.
+
+Lemma numeric_wt_progress t : type_numeric t = true -> wt_progress (elem_wt t).
+Proof.
+  destruct t as [k|name]; cbn [type_numeric]; [|discriminate]. unfold is_numeric, elem_wt, wt_progress. cbn [kind_of_type].
+  cbv zeta. intros H. apply orb_true_iff in H. destruct H as [H|H]; [apply orb_true_iff in H; destruct H as [H|H]|];
+    apply Z.eqb_eq in H; auto.
+Qed.
+
+(* search_field_id finds a tag of the wanted number *)
+Lemma search_field_id_found : forall f buf rd id lim start rd',
+  search_field_id f buf rd id lim = SFound start rd' ->
+  exists v n, cvar buf rd' = Some (v, n) /\ v / 8 = id /\ ctag buf rd' = Some (id, v mod 8, n).
+Proof.
+  induction f as [|f IH]; intros buf rd id lim start rd'; cbn [search_field_id]; [discriminate|].
+  destruct (rd <? lim); [|discriminate].
+  destruct (ctag buf rd) as [[[num wt] n]|] eqn:Et; [|discriminate].
+  destruct (Z.eqb_spec num id) as [->|Hne].
+  - intros HH; inversion HH; subst. unfold ctag in Et |- *.
+    destruct (cvar buf rd') as [[v n0]|]; [|discriminate].
+    destruct ((v / 8 >? 2147483647) || (v / 8 <? 1)); [discriminate|]. inversion Et; subst.
+    exists v, n. auto.
+  - destruct (askip buf (rd + n) wt); try discriminate. apply IH.
+Qed.
+
+(* getByPath with x more units of fuel in EVERY loop (copies of the model definitions, the fuel S (length buf)
+   replaced by S (x + length buf)); x = 0 is the model itself *)
+Section Fuelled.
+Variable x : nat.
+Definition fu (b : list Z) : nat := S (x + length b).
+
+Definition skip_all_elements_x (fx : fixes) (buf : list Z) (rd fnum : Z) (packed : bool) (ewt : Z) : sares :=
+  if packed then
+    match ctag buf rd with
+    | None => SaErr
+    | Some (_, _, n) =>
+      match aread_length buf (rd + n) with
+      | None => SaErr
+      | Some (len, rd0) =>
+        if f703 fx then
+          if (len <? 0) || (rd0 + len >? plen buf) then SaErr
+          else match skip_all_packed (fu buf) buf rd0 (rd0 + len) ewt 0 with
+               | SaOk rd' c => if rd' =? rd0 + len then SaOk rd' c else SaErr
+               | r => r
+               end
+        else skip_all_packed (fu buf) buf rd0 (rd0 + len) 0 0
+      end
+    end
+  else skip_all_unpacked (fu buf) buf rd fnum 0.
+
+Definition search_index_x (fx : fixes) (buf : list Z) (rd idx ewt : Z) (packed : bool) (fnum : Z) : sres :=
+  if f701 fx && (idx <? 0) then SNotFound
+  else if packed then
+    match aread_length buf rd with
+    | None => SErrRaw
+    | Some (len, rd0) => search_index_packed (fu buf) fx buf rd0 (rd0 + len) idx ewt 0
+    end
+  else
+    let rd' := if f702 fx && (idx =? 0) then rd - plen (varint_enc (fnum * 8 + ewt)) else rd in
+    search_index_unpacked (fu buf) fx buf rd' idx ewt fnum 0 rd true.
+
+Definition gbp_final_x (fx : fixes) (buf : list Z) (lbl : flabel) (t : ftype) (num : Z) (tt start rd : Z) : gout :=
+  if (tt =? T_LIST) || (tt =? T_MAP) then
+    match skip_all_elements_x fx buf rd num (desc_packed lbl t) (elem_wt t) with
+    | SaErr => if f710 fx then GErrA else GPanicA
+    | SaPanic => GPanicA
+    | SaOk rd' size => GFoundA tt (slice buf start rd') size
+    end
+  else
+    let after_tag :=
+      if desc_packed lbl t then Some (start, rd)
+      else match ctag buf rd with Some (_, _, n) => Some (rd + n, rd + n) | None => None end in
+    match after_tag with
+    | None => GErrA
+    | Some (start', rd1) =>
+      match askip buf rd1 (elem_wt t) with
+      | SkErr => GErrA
+      | SkPanic => GPanicA
+      | SkOk rd2 => if rd2 <? start' then GUnmodelled else GFoundA tt (slice buf start' rd2) 0
+      end
+    end.
+
+Fixpoint gbp_loop_x (fx : fixes) (S : schema) (buf : list Z) (p : list pstep) (rd : Z) (isroot : bool)
+         (lbl : flabel) (t : ftype) (num : Z) {struct p} : gout :=
+  match p with
+  | [] => GUnmodelled
+  | s :: p' =>
+    let last := ProtoMsg.is_nil p' in
+    let after (buf : list Z) (r : sres) (lbl' : flabel) (t' : ftype) (num' tt : Z) : gout :=
+      match r with
+      | SFound start rd1 =>
+        if last then gbp_final_x fx buf lbl' t' num' tt start rd1
+        else match ctag buf rd1 with
+             | None => GErrA
+             | Some (_, _, n) => gbp_loop_x fx S buf p' (rd1 + n) false lbl' t' num'
+             end
+      | SNotFound => if last then GNotFoundA else GErrA
+      | SErrNode => GErrA
+      | SErrRaw => if f710 fx then GErrA else GPanicA
+      | SPanic => GPanicA
+      end in
+    match s with
+    | PField _ | PName _ =>
+      match (if isroot then Some (plen buf, rd) else aread_length buf rd) with
+      | None => GErrA
+      | Some (mlen, rd0) =>
+        let buf' := if f704 fx && (0 <=? rd0 + mlen) && (rd0 + mlen <? plen buf) then firstn (Z.to_nat (rd0 + mlen)) buf else buf in
+        match lbl, t with
+        | LMap _, _ => GUnmodelled
+        | _, TScalar _ => GUnmodelled
+        | _, TMsg name =>
+          match find_msg S name with
+          | None => GUnmodelled
+          | Some md =>
+            match s, step_field md s with
+            | PField n, None =>
+              match search_field_id (fu buf') buf' rd0 n (rd0 + mlen) with
+              | SFound _ _ => GUnmodelled
+              | r => after buf' r lbl t num K_MESSAGE
+              end
+            | _, Some fd =>
+              after buf' (search_field_id (fu buf') buf' rd0 (fd_num fd) (rd0 + mlen))
+                    (fd_label fd) (fd_type fd) (fd_num fd) (node_type (fd_label fd) (fd_type fd))
+            | _, None => GErrA
+            end
+          end
+        end
+      end
+    | PIndex i =>
+      match lbl with
+      | LRepeated _ =>
+        after buf (search_index_x fx buf rd i (elem_wt t) (type_numeric t) num) lbl t num (kind_of_type t)
+      | _ => GUnmodelled
+      end
+    | PStrKey k =>
+      match lbl with
+      | LMap _ =>
+        after buf (search_key (fu buf) buf
+                 (fun r => match aread_string buf r with
+                           | Some (b, r') => Some (bytes_eqb b k, r')
+                           | None => None
+                           end) rd num)
+              LSingular t 0 (kind_of_type t)
+      | _ => GUnmodelled
+      end
+    | PIntKey k =>
+      match lbl with
+      | LMap kk =>
+        after buf (search_key (fu buf) buf
+                 (fun r => match aread_int buf r kk with
+                           | Some (x, r') => Some (x =? k, r')
+                           | None => None
+                           end) rd num)
+              LSingular t 0 (kind_of_type t)
+      | _ => GUnmodelled
+      end
+    end
+  end.
+
+Definition gbp_x (fx : fixes) (S : schema) (root : list Z) (buf : list Z) (p : list pstep) : gout :=
+  match p with
+  | [] => GFoundA K_MESSAGE buf 0
+  | _ => gbp_loop_x fx S buf p 0 true LSingular (TMsg root) 0
+  end.
+End Fuelled.
+
+Definition head_index (p : list pstep) : bool := match p with PIndex _ :: _ => true | _ => false end.
+Definition is_rep (lbl : flabel) : bool := match lbl with LRepeated _ => true | _ => false end.
+
+(* an index step is not followed by another index step (a list element is never itself a list) *)
+Fixpoint no_double_index (p : list pstep) : Prop :=
+  match p with
+  | [] => True
+  | s :: p' => (match s with PIndex _ => head_index p' = false | _ => True end) /\ no_double_index p'
+  end.
+
+(* the cursor stands right behind a tag of field [num] *)
+Definition tag_before (buf : list Z) (rd num : Z) : Prop :=
+  exists rd_t v n, 0 <= rd_t /\ cvar buf rd_t = Some (v, n) /\ v / 8 = num /\ rd = rd_t + n.
+
+Section FuelledEq.
+Variable x : nat.
+Variable fx : fixes.
+
+Lemma enough_fu buf rd : inb buf rd -> enough buf (fu x buf) rd.
+Proof. unfold enough, fu, inb, plen. lia. Qed.
+
+Lemma sae_x_eq buf rd fnum packed ewt :
+  bytes_ok buf -> inb buf rd -> (packed = true -> f703 fx = true -> wt_progress ewt) ->
+  skip_all_elements_x x fx buf rd fnum packed ewt = skip_all_elements fx buf rd fnum packed ewt.
+Proof.
+  intros Hb Hrd Hw. unfold skip_all_elements_x, skip_all_elements. destruct packed.
+  - destruct (ctag buf rd) as [[[num wt] n]|] eqn:Et; [|reflexivity]. apply (ctag_inb buf Hb rd _ _ _ Hrd) in Et.
+    assert (Hrd' : inb buf (rd + n)) by (unfold inb in *; lia).
+    destruct (aread_length buf (rd + n)) as [[len rd0]|] eqn:El; [|reflexivity].
+    apply (aread_length_inb buf Hb _ _ _ Hrd') in El.
+    assert (Hrd0 : inb buf rd0) by (unfold inb in *; lia).
+    destruct (f703 fx) eqn:E3.
+    + destruct ((len <? 0) || (rd0 + len >? plen buf)); [reflexivity|].
+      rewrite (skip_all_packed_fuel buf Hb (fu x buf) (S (length buf)) rd0 (rd0 + len) ewt 0);
+        [reflexivity | auto | assumption | apply enough_fu; assumption | apply enough_default; assumption].
+    + apply skip_all_packed_fuel; [assumption | left; reflexivity | assumption | apply enough_fu; assumption
+                                  | apply enough_default; assumption].
+  - apply skip_all_unpacked_fuel; [assumption | assumption | apply enough_fu; assumption | apply enough_default; assumption].
+Qed.
+
+Lemma si_x_eq buf rd idx ewt packed fnum :
+  bytes_ok buf -> inb buf rd -> (packed = true -> wt_progress ewt) ->
+  (f702 fx = true -> idx = 0 -> packed = false -> plen (varint_enc (fnum * 8 + ewt)) <= rd) ->
+  search_index_x x fx buf rd idx ewt packed fnum = search_index fx buf rd idx ewt packed fnum.
+Proof.
+  intros Hb Hrd Hw H702. unfold search_index_x, search_index.
+  destruct (f701 fx && (idx <? 0)); [reflexivity|]. destruct packed.
+  - destruct (aread_length buf rd) as [[len rd0]|] eqn:El; [|reflexivity].
+    apply (aread_length_inb buf Hb _ _ _ Hrd) in El.
+    assert (Hrd0 : inb buf rd0) by (unfold inb in *; lia).
+    apply search_index_packed_fuel; [assumption | auto | assumption | apply enough_fu; assumption
+                                    | apply enough_default; assumption].
+  - cbv zeta.
+    assert (Hrd' : inb buf (if f702 fx && (idx =? 0) then rd - plen (varint_enc (fnum * 8 + ewt)) else rd)).
+    { destruct (f702 fx) eqn:E2; cbn [andb]; [|assumption].
+      destruct (Z.eqb_spec idx 0) as [E0|]; [|assumption].
+      specialize (H702 eq_refl E0 eq_refl). unfold inb, plen in *. lia. }
+    apply search_index_unpacked_fuel; [assumption | assumption | apply enough_fu; assumption
+                                      | apply enough_default; assumption].
+Qed.
+
+Lemma final_x_eq buf lbl t num tt start rd :
+  bytes_ok buf -> inb buf rd ->
+  gbp_final_x x fx buf lbl t num tt start rd = gbp_final fx buf lbl t num tt start rd.
+Proof.
+  intros Hb Hrd. unfold gbp_final_x, gbp_final.
+  destruct ((tt =? T_LIST) || (tt =? T_MAP)); [|reflexivity].
+  rewrite sae_x_eq; [reflexivity | assumption | assumption |].
+  intros Hp _. apply numeric_wt_progress. destruct lbl; cbn [desc_packed] in Hp; try discriminate. exact Hp.
+Qed.
+
+Lemma sfi_x_eq buf rd0 id lim :
+  bytes_ok buf -> (rd0 < lim -> inb buf rd0) ->
+  search_field_id (fu x buf) buf rd0 id lim = search_field_id (S (length buf)) buf rd0 id lim.
+Proof.
+  intros Hb Hrd. destruct (Z.ltb_spec rd0 lim) as [Hlt|Hge].
+  - specialize (Hrd Hlt). apply search_field_id_fuel; [assumption | assumption | apply enough_fu; assumption
+                                                      | apply enough_default; assumption].
+  - unfold fu. cbn [search_field_id]. destruct (Z.ltb_spec rd0 lim); [lia | reflexivity].
+Qed.
+
+Lemma sfi_found_inb buf f rd0 id lim start rd1 :
+  bytes_ok buf -> (rd0 < lim -> inb buf rd0) ->
+  search_field_id f buf rd0 id lim = SFound start rd1 -> inb buf rd1.
+Proof.
+  intros Hb Hrd Hr. destruct (Z.ltb_spec rd0 lim) as [Hlt|Hge].
+  - pose proof (search_field_id_inb buf Hb f rd0 id lim (Hrd Hlt)) as H. rewrite Hr in H. cbn [sres_fwd] in H.
+    specialize (Hrd Hlt). unfold inb in *. lia.
+  - destruct f; cbn [search_field_id] in Hr; [discriminate|].
+    destruct (Z.ltb_spec rd0 lim); [lia | discriminate].
+Qed.
+
+Lemma gbp_loop_x_eq S : forall p buf rd isroot lbl t num,
+  no_double_index p -> bytes_ok buf -> inb buf rd ->
+  (head_index p = true -> is_rep lbl = true -> tag_before buf rd num /\ 1 <= num) ->
+  gbp_loop_x x fx S buf p rd isroot lbl t num = gbp_loop fx S buf p rd isroot lbl t num.
+Proof.
+  induction p as [|s p' IH]; intros buf rd isroot lbl t num Hnd Hb Hrd Htag; [reflexivity|].
+  destruct Hnd as [Hs Hnd'].
+  cbn [gbp_loop_x gbp_loop]. cbv zeta.
+  assert (Hafter : forall buf0 r lbl' t' num' tt,
+    bytes_ok buf0 ->
+    (forall start rd1, r = SFound start rd1 ->
+       inb buf0 rd1 /\
+       (head_index p' = true -> is_rep lbl' = true ->
+        exists v n, cvar buf0 rd1 = Some (v, n) /\ v / 8 = num' /\ 1 <= num')) ->
+    match r with
+    | SFound start rd1 =>
+      if ProtoMsg.is_nil p' then gbp_final_x x fx buf0 lbl' t' num' tt start rd1
+      else match ctag buf0 rd1 with
+           | None => GErrA
+           | Some (_, _, n) => gbp_loop_x x fx S buf0 p' (rd1 + n) false lbl' t' num'
+           end
+    | SNotFound => if ProtoMsg.is_nil p' then GNotFoundA else GErrA
+    | SErrNode => GErrA
+    | SErrRaw => if f710 fx then GErrA else GPanicA
+    | SPanic => GPanicA
+    end =
+    match r with
+    | SFound start rd1 =>
+      if ProtoMsg.is_nil p' then gbp_final fx buf0 lbl' t' num' tt start rd1
+      else match ctag buf0 rd1 with
+           | None => GErrA
+           | Some (_, _, n) => gbp_loop fx S buf0 p' (rd1 + n) false lbl' t' num'
+           end
+    | SNotFound => if ProtoMsg.is_nil p' then GNotFoundA else GErrA
+    | SErrNode => GErrA
+    | SErrRaw => if f710 fx then GErrA else GPanicA
+    | SPanic => GPanicA
+    end).
+  { intros buf0 r lbl' t' num' tt Hb0 Hr. destruct r as [start rd1| | | |]; try reflexivity.
+    destruct (Hr start rd1 eq_refl) as (Hi1 & Hj).
+    destruct (ProtoMsg.is_nil p'); [apply final_x_eq; assumption|].
+    destruct (ctag buf0 rd1) as [[[num1 wt1] n1]|] eqn:Et; [|reflexivity].
+    pose proof (ctag_inb buf0 Hb0 rd1 _ _ _ Hi1 Et) as Hc.
+    apply IH; [assumption | assumption | unfold inb in *; lia |].
+    intros Hh Hrep. destruct (Hj Hh Hrep) as (v & n & Hcv & Hv & Hn). split; [|assumption].
+    exists rd1, v, n. split; [unfold inb in Hi1; lia|]. split; [assumption|]. split; [assumption|].
+    unfold ctag in Et. rewrite Hcv in Et.
+    destruct ((v / 8 >? 2147483647) || (v / 8 <? 1)); [discriminate|]. inversion Et. reflexivity. }
+  destruct s as [n|nm|i|k|k].
+  - (* PField *)
+    assert (Hopt : forall mlen rd0, (if isroot then Some (plen buf, rd) else aread_length buf rd) = Some (mlen, rd0) ->
+                   inb buf rd0).
+    { intros mlen rd0 E. destruct isroot; [inversion E; subst; assumption|].
+      apply (aread_length_inb buf Hb _ _ _ Hrd) in E. unfold inb in *. lia. }
+    destruct (if isroot then Some (plen buf, rd) else aread_length buf rd) as [[mlen rd0]|]; [|reflexivity].
+    specialize (Hopt mlen rd0 eq_refl).
+    set (buf' := if f704 fx && (0 <=? rd0 + mlen) && (rd0 + mlen <? plen buf)
+                 then firstn (Z.to_nat (rd0 + mlen)) buf else buf).
+    assert (Hb' : bytes_ok buf') by (subst buf'; destruct (f704 fx && _ && _); [apply bytes_ok_firstn'|]; assumption).
+    assert (Hi' : rd0 < rd0 + mlen -> inb buf' rd0).
+    { intros Hm. subst buf'. destruct (f704 fx && (0 <=? rd0 + mlen) && (rd0 + mlen <? plen buf)) eqn:Ec; [|assumption].
+      apply andb_true_iff in Ec. destruct Ec as [Ec E2]. apply Z.ltb_lt in E2.
+      unfold inb, plen in *. rewrite firstn_length. lia. }
+    destruct lbl; try reflexivity; (destruct t as [kk|name]; [reflexivity|]);
+      (destruct (find_msg S name) as [md|]; [|reflexivity]); cbn [step_field];
+      (destruct (find_field md n) as [fd|];
+       [ rewrite (sfi_x_eq buf' rd0 (fd_num fd) (rd0 + mlen) Hb' Hi'); apply Hafter; [assumption|];
+         intros start rd1 Hr; split;
+         [ eapply sfi_found_inb; eassumption
+         | intros _ _; destruct (search_field_id_found _ _ _ _ _ _ _ Hr) as (v & n0 & Hc & Hv & Hct);
+           exists v, n0; split; [assumption|]; split; [assumption|];
+           pose proof (ctag_inb buf' Hb' rd1 _ _ _ (sfi_found_inb _ _ _ _ _ _ _ Hb' Hi' Hr) Hct); lia ]
+       | rewrite (sfi_x_eq buf' rd0 n (rd0 + mlen) Hb' Hi'); reflexivity ]).
+  - (* PName *)
+    assert (Hopt : forall mlen rd0, (if isroot then Some (plen buf, rd) else aread_length buf rd) = Some (mlen, rd0) ->
+                   inb buf rd0).
+    { intros mlen rd0 E. destruct isroot; [inversion E; subst; assumption|].
+      apply (aread_length_inb buf Hb _ _ _ Hrd) in E. unfold inb in *. lia. }
+    destruct (if isroot then Some (plen buf, rd) else aread_length buf rd) as [[mlen rd0]|]; [|reflexivity].
+    specialize (Hopt mlen rd0 eq_refl).
+    set (buf' := if f704 fx && (0 <=? rd0 + mlen) && (rd0 + mlen <? plen buf)
+                 then firstn (Z.to_nat (rd0 + mlen)) buf else buf).
+    assert (Hb' : bytes_ok buf') by (subst buf'; destruct (f704 fx && _ && _); [apply bytes_ok_firstn'|]; assumption).
+    assert (Hi' : rd0 < rd0 + mlen -> inb buf' rd0).
+    { intros Hm. subst buf'. destruct (f704 fx && (0 <=? rd0 + mlen) && (rd0 + mlen <? plen buf)) eqn:Ec; [|assumption].
+      apply andb_true_iff in Ec. destruct Ec as [Ec E2]. apply Z.ltb_lt in E2.
+      unfold inb, plen in *. rewrite firstn_length. lia. }
+    destruct lbl; try reflexivity; (destruct t as [kk|name]; [reflexivity|]);
+      (destruct (find_msg S name) as [md|]; [|reflexivity]); cbn [step_field];
+      (destruct (find_field_name md nm) as [fd|]; [|reflexivity]);
+      rewrite (sfi_x_eq buf' rd0 (fd_num fd) (rd0 + mlen) Hb' Hi'); (apply Hafter; [assumption|]);
+      intros start rd1 Hr;
+      (split;
+       [ eapply sfi_found_inb; eassumption
+       | intros _ _; destruct (search_field_id_found _ _ _ _ _ _ _ Hr) as (v & n0 & Hc & Hv & Hct);
+         exists v, n0; (split; [assumption|]); (split; [assumption|]);
+         pose proof (ctag_inb buf' Hb' rd1 _ _ _ (sfi_found_inb _ _ _ _ _ _ _ Hb' Hi' Hr) Hct); lia ]).
+  - (* PIndex *)
+    destruct lbl as [|q|kk]; try reflexivity.
+    assert (H702 : f702 fx = true -> i = 0 -> type_numeric t = false ->
+                   plen (varint_enc (num * 8 + elem_wt t)) <= rd).
+    { intros _ _ _. destruct (Htag eq_refl eq_refl) as ((rd_t & v & n & Hrt & Hcv & Hv & ->) & Hnum).
+      pose proof (tag_len_le buf rd_t v n num (elem_wt t) Hb Hrt Hcv Hv Hnum (elem_wt_range t)). lia. }
+    rewrite (si_x_eq buf rd i (elem_wt t) (type_numeric t) num Hb Hrd (numeric_wt_progress t) H702).
+    apply Hafter; [assumption|]. intros start rd1 Hr. split.
+    + pose proof (search_index_inb buf Hb fx rd i (elem_wt t) (type_numeric t) num Hrd H702) as H.
+      rewrite Hr in H. cbn [sres_unpacked] in H. unfold inb. tauto.
+    + intros Hh. rewrite Hs in Hh. discriminate.
+  - (* PStrKey *)
+    destruct lbl as [|q|kk]; try reflexivity.
+    rewrite (search_key_fuel buf Hb (fu x buf) (Datatypes.S (length buf)) _ rd num (rdkey_str_ok buf Hb k) Hrd
+               (enough_fu buf rd Hrd) (enough_default buf rd Hrd)).
+    apply Hafter; [assumption|]. intros start rd1 Hr. split.
+    + pose proof (search_key_inb buf Hb (Datatypes.S (length buf)) _ rd num (rdkey_str_ok buf Hb k) Hrd) as H.
+      rewrite Hr in H. cbn [sres_fwd] in H. unfold inb in *. lia.
+    + intros _ Hrep. discriminate.
+  - (* PIntKey *)
+    destruct lbl as [|q|kk]; try reflexivity.
+    rewrite (search_key_fuel buf Hb (fu x buf) (Datatypes.S (length buf)) _ rd num (rdkey_int_ok buf Hb kk k) Hrd
+               (enough_fu buf rd Hrd) (enough_default buf rd Hrd)).
+    apply Hafter; [assumption|]. intros start rd1 Hr. split.
+    + pose proof (search_key_inb buf Hb (Datatypes.S (length buf)) _ rd num (rdkey_int_ok buf Hb kk k) Hrd) as H.
+      rewrite Hr in H. cbn [sres_fwd] in H. unfold inb in *. lia.
+    + intros _ Hrep. discriminate.
+Qed.
+
+(* getByPath never needs more fuel than it gives itself *)
+Theorem gbp_fuel_independent S root buf p :
+  bytes_ok buf -> no_double_index p -> gbp_x x fx S root buf p = gbp fx S root buf p.
+Proof.
+  intros Hb Hnd. unfold gbp_x, gbp. destruct p as [|s p]; [reflexivity|].
+  apply gbp_loop_x_eq; [assumption | assumption | unfold inb, plen; lia |].
+  intros _ Hrep. discriminate.
+Qed.
+
+End FuelledEq.
+
+(* ---- corollaries for the fully repaired tree, and the counterexamples that delimit the statements above *)
+Definition fixes_all : fixes := mk_fixes true true true true true true true true true true.
+
+Corollary gbp_all_fixes_no_panic S root buf p : gbp fixes_all S root buf p <> GPanicA.
+Proof. apply gbp_no_panic. reflexivity. Qed.
+
+(* as coded (701 open) the unpacked index search reports index = length as found, with a start offset BEYOND the
+   buffer: field 16 (two-byte tag), two one-byte elements, index 2; repaired: not found *)
+Example search_index_as_coded_offset_outside :
+  let b := [128; 1; 7; 128; 1; 9] in
+  plen b = 6 /\ search_index no_fixes b 2 2 0 false 16 = SFound 7 6 /\
+  search_index fixes_all b 2 2 0 false 16 = SNotFound.
+Proof. vm_compute. repeat split; reflexivity. Qed.
+
+(* without the progress hypothesis the packed search does depend on its fuel (an element wire type that Skip does
+   not know consumes nothing: the loop is bounded by the index, not by the input) *)
+Example search_index_packed_needs_progress :
+  search_index_packed 3 no_fixes [5; 1; 2; 3; 4; 5] 1 6 5 (-1) 0 = SErrRaw /\
+  search_index_packed 9 no_fixes [5; 1; 2; 3; 4; 5] 1 6 5 (-1) 0 = SFound 1 1.
+Proof. vm_compute. split; reflexivity. Qed.
+
+(* the side condition of search_index_inb: called on its own at a cursor in front of which there is no tag,
+   repair 702 steps back out of the buffer *)
+Example search_index_702_needs_tag_before : search_index fixes_all [8; 1] 0 0 0 false 1 = SFound 0 (-1).
+Proof. vm_compute. reflexivity. Qed.
